@@ -28,7 +28,7 @@ def main():
     if os.path.exists(os.path.join(OUT, "history.json")):
         hist = json.load(open(os.path.join(OUT, "history.json")))
     for d in sorted(os.listdir(SRC)):
-        m = re.fullmatch(r"(C\d\d)-out", d)
+        m = re.fullmatch(r"([CR]\d\d)-out", d)
         if not m:
             continue
         prop = m.group(1)
@@ -55,7 +55,7 @@ def main():
                 checks[k] = {"caught": v["caught"], "wall_s": v["wall_s"], "lines": v.get("lines", [])[:3]}
             history = hist.get(sid, [])
             meta = {
-                "id": sid, "property": prop, "title": title(readme),
+                "id": sid, "property": res.get("property", prop), "title": title(readme),
                 "needs_to_manifest": needs_section(readme),
                 "author": "fresh sub-agent given only the property text and a scratch worktree of /repo",
                 "base_commit_of_check_run": res.get("base_commit", ""),
